@@ -277,22 +277,45 @@ def run(tier, seed):
 
 
 def energy_drift_probe(res, rng, tier):
-    """Supporting: energy drift of real hop-free runs scales as dt^2 (ratio ~4 when halving dt)."""
-    import mudslide
+    """Supporting: the logged total energy of real runs drifts by an amount that shrinks quadratically with dt
+    (ratio ~4 when halving dt) - every hopping class on every registered model (hop-free thresholds so that the
+    two step sizes follow the same surface)."""
+    import mudslide, queue
     from mudslide.models import scattering_models as M
-    bad = []
-    for name, x0, p0, T in [("dual", -4.0, 12.0, 1200.0), ("super", -5.0, 8.0, 2000.0)] + ([] if tier == "quick" else [("modelx", -9.0, 10.0, 3000.0), ("models", -9.0, 10.0, 3000.0)]):
+    from mudslide.even_sampling import EvenSamplingTrajectory
+    CLS = dict(fssh=mudslide.TrajectorySH, cumulative=mudslide.TrajectoryCum, afssh=mudslide.AugmentedFSSH, es_leaf=EvenSamplingTrajectory)
+    SET = [("simple", [-3.0], [12.0], 0, 4.0, 150), ("dual", [-4.0], [14.0], 0, 4.0, 200), ("extended", [-4.0], [8.0], 0, 1.0, 500), ("super", [-5.0], [8.0], 0, 4.0, 250),
+           ("modelx", [-8.0], [10.0], 0, 4.0, 300), ("models", [-8.0], [10.0], 1, 4.0, 300), ("modelw", [-1.0], [20.0], 0, 0.5, 100), ("modelz", [-1.0], [20.0], 0, 0.5, 100),
+           ("vibronic", [0.1, -0.2, 0.15, 0.05, 0.6], [0.5, -0.3, 0.2, 0.1, 3.0], 1, 1.0, 80), ("shin-metiu", [-2.0], [10.0], 1, 2.0, 60)]
+    known = set(e.get("key") for e in load_known_findings("C01"))
+    combos = [(s_, c) for s_ in SET for c in CLS if not (c == "afssh" and s_[0] == "modelx")]
+    if tier == "quick":
+        rng.shuffle(combos)
+        always = ("shin-metiu", "vibronic", "modelw", "modelz")
+        combos = [c_ for c_ in combos if c_[0][0] in always] + [c_ for c_ in combos if c_[0][0] not in always][:8]
+        # every model at least once
+        combos += [(s_, rng.choice(list(CLS))) for s_ in SET if s_[0] not in set(c_[0][0] for c_ in combos)]
+        combos = [c_ for c_ in combos if not (c_[1] == "afssh" and c_[0][0] == "modelx")]
+    bad, khits = [], {}
+    for (name, x0, p0, st, dt0, n0), cn in combos:
         drifts = []
-        for dt in [8.0, 4.0, 2.0]:
-            model = M[name]()
-            n = int(round(T / dt))
-            tr = mudslide.TrajectorySH(model, [x0], [p0], 0, dt=dt, max_steps=n, zeta_list=[2.0] * (n + 2))
-            log = tr.simulate()
-            e = np.array([s["energy"] for s in log])
-            drifts.append(float(np.max(np.abs(e - e[0]))))
-        r1, r2 = drifts[0] / drifts[1], drifts[1] / drifts[2]
-        res.count("drift-probe/" + name)
-        res.extra.setdefault("drift_ratios", {})[name] = [r1, r2]
-        if not (2.8 < r2 < 5.5):
-            bad.append(dict(failed="energy drift shrinks quadratically with dt (model %s: drifts %r)" % (name, drifts), case=dict(model=name, x0=x0, p0=p0, T=T)))
+        for dt, n in ((dt0, n0), (dt0 / 2, 2 * n0)):
+            kw = dict(dt=dt, max_steps=n, zeta_list=[2.0] * (n + 5), seed_sequence=3)
+            if cn == "es_leaf": kw.update(spawn_stack=None, queue=queue.Queue())
+            log = CLS[cn](M[name](), x0, p0, st, **kw).simulate()
+            e = np.array([s_["energy"] for s_ in log]); drifts.append(float(np.max(np.abs(e - e[0]))))
+        ratio = drifts[0] / max(drifts[1], 1e-300)
+        res.count("drift-probe/" + name); res.count("drift-probe-class/" + cn)
+        res.extra.setdefault("drift_ratios", {})["%s/%s" % (name, cn)] = [drifts[0], drifts[1], ratio]
+        if 2.8 < ratio < 5.5 or drifts[0] < 1e-12:
+            continue
+        key = {"modelw": "modelw-energy-drift", "modelz": "modelz-energy-drift"}.get(name)
+        if key in known and ratio < 1.3:
+            khits.setdefault(key, []).append((cn, drifts[0]))
+        else:
+            bad.append(dict(failed="energy drift shrinks quadratically with dt (%s on model %s: max|E-E0| %r at dt=%g, %r at dt=%g)" % (cn, name, drifts[0], dt0, drifts[1], dt0 / 2),
+                            case=dict(model=name, cls=cn, x0=x0, p0=p0, state=st, dt=[dt0, dt0 / 2], steps=[n0, 2 * n0])))
+    for key, hits in sorted(khits.items()):
+        res.known_finding({key: "total energy drifts by %.3g Hartree independently of dt on %s (%d runs: %s): its dV is not the gradient of V (see the C05 finding), so the force is not minus the energy gradient"
+                                % (hits[0][1], "SubotnikModelW" if "w-" in key else "SubotnikModelZ", len(hits), ",".join(h[0] for h in hits))}[key])
     return bad
